@@ -340,13 +340,19 @@ Definition doc_ok (img : str) : Prop :=
   forall pre x y post rest, x <> DQ -> y <> DQ -> has_triple pre = false -> has_triple post = false ->
     lex_docstring (safe_docstring (pre ++ x :: img ++ y :: post) ++ rest) = Some ([32] ++ (pre ++ x :: img ++ y :: post) ++ [32], rest).
 
+(* a name token: identifier-class images are inert; PythonIdentifier images (snake-cased, or raw-name fallback inside its guard) are valid
+   non-keyword identifiers; validated slots only carry letters, digits, underscore, dash *)
+Definition name_ok (sa : san) (p : str) : Prop :=
+  let img := image sa p in
+  (ident_san sa = true -> forallb inert_char img = true) /\
+  ((sa = SSnake \/ sa = SSanitize) -> is_identifier img = true /\ mem_str img keywords = false) /\
+  (sa = SRejects -> forallb pathparam_char img = true).
+
 Definition emitted_ok (s : site) (p : str) : Prop :=
   let sa := s_san s in
   let img := image sa p in
   match s_ctx s with
-  | CIdent | CPath =>
-      forallb inert_char img = true /\
-      (sa = SSnake -> is_identifier img = true /\ mem_str img keywords = false)
+  | CIdent | CPath => name_ok sa p
   | CDQ => lit_ok DQ img (lit_expected sa p)
   | CTomlBasic => forall pre post rest, plain DQ pre = true -> plain DQ post = true ->
                     lex_toml_basic (pre ++ img ++ post ++ DQ :: rest) = Some (pre ++ lit_expected sa p ++ post, rest)
@@ -377,12 +383,49 @@ Proof. intros H pre post rest. apply lit_site, lit_guard_value, H. Qed.
 Lemma guard_doc_ok img : negb (has_triple img) && no_nul img = true -> doc_ok img.
 Proof. intros H pre x y post rest. apply andb_prop in H as [H _]. apply doc_site. now apply negb_true_iff. Qed.
 
-Lemma ident_name_ok sa p : ident_san sa = true -> g_xid p = true ->
-  forallb inert_char (image sa p) = true /\
-  (sa = SSnake -> is_identifier (image sa p) = true /\ mem_str (image sa p) keywords = false).
+Lemma ident_name_ok sa p : ident_san sa = true -> g_xid p = true -> name_ok sa p.
 Proof.
-  intros Hi Hg. split; [now apply ident_image_inert|].
-  intros ->. cbn [image]. apply python_identifier_valid; [exact fact_field_prefix_good | exact Hg].
+  intros Hi Hg. split; [intros _; now apply ident_image_inert|]. split.
+  - intros [->| ->]; [|discriminate Hi]. cbn [image]. apply python_identifier_valid; [exact fact_field_prefix_good | exact Hg].
+  - intros ->. discriminate Hi.
+Qed.
+
+Lemma sanitize_name_ok p :
+  is_identifier (image SSanitize p) && negb (mem_str (image SSanitize p) keywords) = true -> name_ok SSanitize p.
+Proof.
+  intros H. apply andb_prop in H as [H1 H2]. apply negb_true_iff in H2.
+  split; [discriminate|]. split; [intros _; now split | discriminate].
+Qed.
+
+Lemma rejects_name_ok p : forallb pathparam_char p = true -> name_ok SRejects p.
+Proof. intros H. split; [discriminate|]. split; [intros [E|E]; discriminate E | intros _; exact H]. Qed.
+
+Lemma pathparam_spec c : pathparam_char c = true -> c <> 0 /\ c <> 34 /\ c <> 39 /\ c <> 92 /\ c <> 10 /\ c <> 13.
+Proof.
+  unfold pathparam_char. intros H.
+  repeat (apply orb_true_iff in H; destruct H as [H|H]);
+    try (apply andb_prop in H as [Ha Hb]; apply N.leb_le in Ha, Hb; repeat split; lia);
+    apply N.eqb_eq in H; subst c; repeat split; discriminate.
+Qed.
+
+Lemma pathparam_plain q s : (q = DQ \/ q = SQ) -> forallb pathparam_char s = true -> plain q s = true.
+Proof.
+  intros Hq H. unfold plain. apply forallb_forall. intros c Hc.
+  rewrite forallb_forall in H. specialize (H c Hc). apply pathparam_spec in H.
+  destruct H as (H0 & H34 & H39 & H92 & H10 & H13).
+  unfold plainc, BS, NL, CR. apply negb_true_iff.
+  repeat (apply orb_false_iff; split); apply N.eqb_neq; try assumption.
+  destruct Hq; subst q; assumption.
+Qed.
+
+Lemma rejects_lit_ok q p : (q = DQ \/ q = SQ) -> forallb pathparam_char p = true -> lit_ok q p p.
+Proof. intros Hq H pre post rest. apply lit_site, plain_lit_value, pathparam_plain; assumption. Qed.
+
+Lemma rejects_doc_ok p : forallb pathparam_char p = true -> doc_ok p.
+Proof.
+  intros H pre x y post rest. apply doc_site, no_dq_no_triple.
+  apply forallb_forall. intros c Hc. rewrite forallb_forall in H. specialize (H c Hc).
+  apply pathparam_spec in H. apply negb_true_iff, N.eqb_neq. tauto.
 Qed.
 
 (* THE site theorem: an acceptable site, a payload inside its guard: the emitted text is data *)
@@ -393,20 +436,22 @@ Proof.
   destruct c; try exact I;
     try (destruct sa; cbn [site_class ident_san] in Hsafe; discriminate Hsafe).
   - (* CIdent *)
-    destruct sa; cbn [site_class ident_san] in Hsafe, Hg; try discriminate Hsafe; now apply ident_name_ok.
+    destruct sa; cbn [site_class ident_san] in Hsafe, Hg; try discriminate Hsafe;
+      first [ now apply ident_name_ok | now apply sanitize_name_ok | now apply rejects_name_ok ].
   - (* CPath *)
-    destruct sa; cbn [site_class ident_san] in Hsafe, Hg; try discriminate Hsafe; now apply ident_name_ok.
+    destruct sa; cbn [site_class ident_san] in Hsafe, Hg; try discriminate Hsafe;
+      first [ now apply ident_name_ok | now apply sanitize_name_ok | now apply rejects_name_ok ].
   - (* CDQ *)
     destruct sa; cbn [site_class ident_san] in Hsafe, Hg; try discriminate Hsafe;
       unfold lit_expected; cbn [ident_san];
-      first [ apply andb_prop in Hg as [Hg _]; now apply guard_lit_ok | now apply ident_lit_ok; [left|] ].
+      first [ apply andb_prop in Hg as [Hg _]; now apply guard_lit_ok | now apply ident_lit_ok; [left|] | now apply rejects_lit_ok; [left|] ].
   - (* CSQ *)
     destruct sa; cbn [site_class ident_san] in Hsafe, Hg; try discriminate Hsafe;
       unfold lit_expected; cbn [ident_san];
-      first [ now apply whole_site | apply andb_prop in Hg as [Hg _]; now apply guard_lit_ok | now apply ident_lit_ok; [right|] ].
+      first [ now apply whole_site | apply andb_prop in Hg as [Hg _]; now apply guard_lit_ok | now apply ident_lit_ok; [right|] | now apply rejects_lit_ok; [right|] ].
   - (* CDoc *)
     destruct sa; cbn [site_class ident_san] in Hsafe, Hg; try discriminate Hsafe;
-      first [ now apply guard_doc_ok | now apply ident_doc_ok ].
+      first [ now apply guard_doc_ok | now apply ident_doc_ok | now apply rejects_doc_ok ].
   - (* CDocCooked *)
     destruct sa; cbn [site_class ident_san] in Hsafe, Hg; try discriminate Hsafe; now apply ident_doc_ok.
   - (* CFstrDQ *)
@@ -518,6 +563,14 @@ Proof.
   split; [vm_compute; reflexivity|]. discriminate.
 Qed.
 
+(* raw_fallback: the raw-name fallback keeps the delimiters space, dash, dot; every other symbol is removed *)
+Theorem raw_fallback_site_refuted :
+  slot_guard (mk CIdent SSanitize "Schema.properties.key@collide" "models/*.py") (s2l "user-id") = false /\
+  site_finding (mk CIdent SSanitize "Schema.properties.key@collide" "models/*.py") (s2l "user-id") = "raw_fallback"%string /\
+  slot_guard (mk CIdent SSanitize "Schema.properties.key@collide" "models/*.py") (s2l "userId;#()=""'") = true /\
+  image SSanitize (s2l "userId;#()=""'") = s2l "userId".
+Proof. vm_compute. repeat split; reflexivity. Qed.
+
 (* nul_char: a NUL character in unescaped or quote-escaped text reaches the file *)
 Theorem nul_char_refuted :
   slot_guard (mk CDoc SEsc "Operation.description" "api/*/*.py") [97; 0] = false /\
@@ -568,6 +621,8 @@ Example unlisted_sites_rejected :
   site_safe (mk CCode SNone "Schema.default@prop-string" "models/*.py") = false /\
   site_safe (mk CDQ SNone "Schema.enum.item@component" "models/*.py") = false /\
   site_safe (mk CDocCooked SEsc "Operation.description" "api/*/*.py") = false /\
+  site_safe (mk CIdent SSanitize "Operation.operationId" "api/*/*.py") = false /\
+  site_safe (mk CIdent SEsc "Schema.properties.key@collide" "models/*.py") = false /\
   site_safe (mk CUnknown SUnknown "x" "y") = false.
 Proof. vm_compute. repeat split; reflexivity. Qed.
 
